@@ -430,7 +430,7 @@ func trustedBase(run *propRun, cs *ContractSet) []string {
 			}
 		}
 		for _, n := range x.notes {
-			if strings.HasPrefix(n, "trusted-contract ") || strings.HasPrefix(n, "intrinsic ") {
+			if strings.HasPrefix(n, "trusted-contract ") || strings.HasPrefix(n, "intrinsic ") || strings.HasPrefix(n, "assumed-pure ") {
 				set[n] = true
 			}
 		}
